@@ -90,6 +90,9 @@ type caseT struct {
 	Steps          []stepT `json:"steps"` // first is Connect, last is Close
 	Publish        []respT `json:"publish"`
 	PublishDelayMs int     `json:"publish_delay_ms"`
+	// Reconnect: the client is built with AutoReconnect(true) and the program
+	// contains Drop steps (the reconnect state machine consumes drawn responses)
+	Reconnect bool `json:"auto_reconnect,omitempty"`
 }
 
 // ---------------------------------------------------------------------------
@@ -117,6 +120,8 @@ var svcs = map[string]svcT{
 	"UnregisterNodesRequest":               {"UnregisterNodesResponse", nil},
 	"HistoryReadRequest":                   {"HistoryReadResponse", [][2]string{{"NodesToRead", "Results"}}},
 	"CreateSubscriptionRequest":            {"CreateSubscriptionResponse", nil},
+	"TransferSubscriptionsRequest":         {"TransferSubscriptionsResponse", [][2]string{{"SubscriptionIDs", "Results"}}},
+	"RepublishRequest":                     {"RepublishResponse", nil},
 	"ModifySubscriptionRequest":            {"ModifySubscriptionResponse", nil},
 	"DeleteSubscriptionsRequest":           {"DeleteSubscriptionsResponse", [][2]string{{"SubscriptionIDs", "Results"}}},
 	"CreateMonitoredItemsRequest":          {"CreateMonitoredItemsResponse", [][2]string{{"ItemsToCreate", "Results"}}},
@@ -132,6 +137,11 @@ var opReqs = map[string][]string{
 	"Connect":                       {"CreateSessionRequest", "ActivateSessionRequest", "ReadRequest"},
 	"Close":                         {"CloseSessionRequest"},
 	"Wait":                          {},
+	// Drop (programs with AutoReconnect only): the server closes every connection;
+	// the requests of the client's reconnect state machine, upper bound
+	"Drop": {"ActivateSessionRequest", "CreateSessionRequest", "ActivateSessionRequest", "ReadRequest", "TransferSubscriptionsRequest",
+		"RepublishRequest", "RepublishRequest", "RepublishRequest", "DeleteSubscriptionsRequest", "CreateSubscriptionRequest", "CreateMonitoredItemsRequest",
+		"DeleteSubscriptionsRequest", "CreateSubscriptionRequest", "CreateMonitoredItemsRequest"},
 	"Read":                          {"ReadRequest"},
 	"Write":                         {"WriteRequest"},
 	"Browse":                        {"BrowseRequest"},
@@ -565,8 +575,38 @@ func genCase(t *rapid.T) caseT {
 		}
 		ops = append(ops, pool[rapid.IntRange(0, len(pool)-1).Draw(t, "op")])
 	}
+	if template != "basic" && rapid.IntRange(0, 2).Draw(t, "reconnect") == 0 {
+		c.Reconnect = true
+		// one or two connection drops after the set-up operation(s)
+		at := 1
+		if template == "mixed" {
+			at = 2
+		}
+		if at > n {
+			at = n
+		}
+		ops = append(append(append([]string{}, ops[:at]...), "Drop"), ops[at:]...)
+		if rapid.Bool().Draw(t, "secondDrop") {
+			ops = append(ops[:n:n], "Drop")
+		} else {
+			ops = ops[:n+1]
+		}
+		n = len(ops)
+	}
 	for _, op := range ops[:n] {
 		pct := variedPct
+		if op == "Drop" {
+			st := genStep(t, op, variedPct)
+			// half of the drops lose the session (the first ActivateSession is
+			// refused), so that the transfer / recreate branches run as well
+			if rapid.Bool().Draw(t, "sessionLost") {
+				st.Resp[0] = respT{Req: "ActivateSessionRequest", Kind: "fault", Status: uint32(ua.StatusBadSessionIDInvalid)}
+			} else {
+				st.Resp[0] = respT{Req: "ActivateSessionRequest", Kind: "ideal"}
+			}
+			c.Steps = append(c.Steps, st)
+			continue
+		}
 		if isSetup(op) {
 			// set-up operations succeed more often so that the later ones have something to work on
 			pct = variedPct / 3
@@ -918,6 +958,7 @@ type msubState struct {
 }
 
 type harness struct {
+	srv       *script.Server
 	ctx       context.Context
 	url       string
 	run       *runT
@@ -1038,6 +1079,19 @@ func (h *harness) do(s stepT) error {
 		return c.Close(ctx)
 	case "Wait":
 		time.Sleep(40 * time.Millisecond)
+		return nil
+	case "Drop":
+		if h.srv == nil || !h.connected {
+			return errSkipped
+		}
+		h.srv.DropConns()
+		// the reconnect runs in the client's own goroutines (a panic there ends the
+		// process: the case is journalled); give it time, nothing is judged here
+		deadline := time.Now().Add(1500 * time.Millisecond)
+		time.Sleep(150 * time.Millisecond)
+		for time.Now().Before(deadline) && c.State() != opcua.Connected && c.State() != opcua.Closed {
+			time.Sleep(20 * time.Millisecond)
+		}
 		return nil
 	case "Read":
 		req := &ua.ReadRequest{TimestampsToReturn: ua.TimestampsToReturnBoth}
@@ -1410,11 +1464,11 @@ func execute(c caseT) (*caseResult, error) {
 	defer srv.Close()
 	ctx, cancel := context.WithCancel(context.Background())
 	defer cancel()
-	cl, err := opcua.NewClient(srv.URL, opcua.SecurityMode(ua.MessageSecurityModeNone), opcua.RequestTimeout(requestTimeout), opcua.AutoReconnect(false))
+	cl, err := opcua.NewClient(srv.URL, opcua.SecurityMode(ua.MessageSecurityModeNone), opcua.RequestTimeout(requestTimeout), opcua.AutoReconnect(c.Reconnect), opcua.ReconnectInterval(20*time.Millisecond))
 	if err != nil {
 		return nil, err
 	}
-	h := &harness{ctx: ctx, url: srv.URL, c: cl, run: run, notif: make(chan *opcua.PublishNotificationData, 64), dc: make(chan *monitor.DataChangeMessage, 64)}
+	h := &harness{srv: srv, ctx: ctx, url: srv.URL, c: cl, run: run, notif: make(chan *opcua.PublishNotificationData, 64), dc: make(chan *monitor.DataChangeMessage, 64)}
 	h.nm, _ = monitor.NewNodeMonitor(cl)
 	h.nm.SetErrorHandler(func(*opcua.Client, *monitor.Subscription, error) {})
 	stop := make(chan struct{})
@@ -1572,7 +1626,7 @@ func summary(c caseT) any {
 
 func TestPrograms(t *testing.T) {
 	rec.Assume("well-formed = the response passed ua.Encode + ua.Decode in the harness before it was sent (responses that do not are replaced by the ideal one and counted)")
-	rec.Assume("AutoReconnect(false): reconnection paths belong to C25/C26; OpenSecureChannelResponse / CloseSecureChannelResponse are not sent as service responses (channel-level messages, C16/C18); Subscription.Cancel and monitor Unsubscribe are called at most once per subscription (documented as not idempotent); the notification channels are always drained")
+	rec.Assume("two thirds of the subscription programs run with AutoReconnect(false); one third with AutoReconnect(true) and 1-2 Drop steps (the server closes every connection, half of the time the session is refused afterwards) so that the reconnect state machine (ActivateSession, CreateSession, TransferSubscriptions, Republish, DeleteSubscriptions, CreateSubscription, CreateMonitoredItems) consumes drawn responses too - only panics and hangs are judged there, whether the client recovers belongs to C25/C26; OpenSecureChannelResponse / CloseSecureChannelResponse are not sent as service responses (channel-level messages, C16/C18); Subscription.Cancel and monitor Unsubscribe are called at most once per subscription (documented as not idempotent); the notification channels are always drained")
 	rapid.Check(t, func(t *rapid.T) {
 		c := genCase(t)
 		rec.Journal("TestPrograms", c)
